@@ -64,14 +64,22 @@ Acts(S) ==
      \cup (IF "Timeout" \in Kinds THEN timeout ELSE {})
 
 \* simulation: draw the kind first (kinds with large alphabets must not crowd out the rest), then - for call events -
-\* whether the id is the current call's, then the instance
+\* whether the id is the current call's, then the instance.  While a call is up most requests are call events; while the
+\* topic is idle an invitation that can succeed is drawn often (otherwise walks rarely get a call going).
 KindOf(a) == IF a.a = "C15Note" THEN "Note:" \o a.event ELSE IF a.a = "Pub" /\ "head" \in DOMAIN a THEN "Invite" ELSE a.a
-RandomAct(S) ==
-  LET acts == Acts(S)
-      k == RandomElement({KindOf(a) : a \in acts})
+PickByKind(S, acts) ==
+  LET k == RandomElement({KindOf(a) : a \in acts})
       ofKind == {a \in acts : KindOf(a) = k}
       right == {a \in ofKind : a.a = "C15Note" /\ S.call.active /\ a.seq = S.call.seq /\ a.t = "p12"}
   IN IF right # {} /\ RandomElement(1..3) # 1 THEN RandomElement(right) ELSE RandomElement(ofKind)
+RandomAct(S) ==
+  LET acts == Acts(S)
+      notes == {a \in acts : a.a = "C15Note"}
+      goodInv == {a \in acts : KindOf(a) = "Invite" /\ a.t = "p12" /\ a.s \in S.att}
+      r == RandomElement(1..10)
+  IN IF S.call.active /\ r <= 6 /\ notes # {} THEN PickByKind(S, notes)
+     ELSE IF ~S.call.active /\ r <= 4 /\ goodInv # {} THEN RandomElement(goodInv)
+     ELSE PickByKind(S, acts)
 
 Init == st = InitState(InitAtt, InitAttG, InitOnMe) /\ hist = <<>> /\ last = [a |-> "Init"]
 
@@ -106,6 +114,8 @@ TypeOK ==
   /\ ~st.call.active => st.call = NoCall
 \* as intended, a party session is always alive (and the topic hears of its departure)
 PartiesAlive == st.call.active => st.call.parties \subseteq st.live
+\* with the repair variant a party is always attached
+PartiesAttached == st.call.active => st.call.parties \subseteq st.att
 EndsOnce == EndsOnceState(st)
 \* not configured: nothing call-related ever exists
 NothingWhenNotConfigured == Configured \/ (~st.call.active /\ Invitations(st.msgs) = {})
